@@ -296,8 +296,8 @@ class Tr:
             if op is ast.Div:
                 raise self.err(node, 'true division of two int literals')
             return f'({a} {sym} {b})', 'natlit'
-        rank = {'natlit': 0, 'bool': 0, 'nat': 1, 'int': 2, 'K': 3, 'vec': 4, 'fld': 4}
-        if sa not in rank or sb not in rank or {sa, sb} == {'vec', 'fld'}:
+        rank = {'natlit': 0, 'bool': 0, 'nat': 1, 'int': 2, 'K': 3, 'vec': 4, 'fld': 4, 'bfld': 4}
+        if sa not in rank or sb not in rank or ('vec' in (sa, sb) and ({sa, sb} & {'fld', 'bfld'})):
             raise self.err(node, f'arithmetic on sorts {sa},{sb}')
         if op is ast.Div and rank[sa] < 3 and rank[sb] < 3:
             tgt = 'K'                                  # Python 3 true division of ints gives a float
@@ -307,10 +307,14 @@ class Tr:
             tgt = 'nat'
         if tgt == 'nat' and op is ast.Sub:
             tgt = 'int'                                # Python ints do not truncate at 0
-        if tgt == 'fld':                               # arrays seen pointwise: numpy's elementwise arithmetic
-            a = f'({a} p)' if sa == 'fld' else self.coerce(a, sa, 'K', node)
-            b = f'({b} p)' if sb == 'fld' else self.coerce(b, sb, 'K', node)
-            return f'(fun p => {a} {sym} {b})', 'fld'
+        if tgt in ('fld', 'bfld'):                     # arrays seen pointwise: numpy's elementwise arithmetic
+            def pw(x, sx):                             # a boolean array in arithmetic counts as 0 / 1
+                if sx == 'fld':
+                    return f'({x} p)'
+                if sx == 'bfld':
+                    return f'(if {x} p then ofNat 1 else ofNat 0)'
+                return self.coerce(x, sx, 'K', node)
+            return f'(fun p => {pw(a, sa)} {sym} {pw(b, sb)})', 'fld'
         if tgt == 'vec':
             if sa == 'vec' and sb == 'vec':
                 return f'(List.zipWith (fun a b => a {sym} b) {a} {b})', 'vec'
@@ -330,6 +334,13 @@ class Tr:
             raise self.err(node, 'chained comparison')
         op = type(node.ops[0])
         l, r = node.left, node.comparators[0]
+        if op is ast.In and isinstance(r, ast.Constant) and isinstance(r.value, str) and dotted(l) and '.' in dotted(l):
+            root, rest = dotted(l).split('.', 1)
+            key = f'.{rest} in'
+            if root in env and key in self.fam.prims:
+                p = self.fam.prims[key]
+                a, _ = self.E(ast.copy_location(ast.Name(id=root, ctx=ast.Load()), node), env, p.args[0])
+                return f'(P.{p.field} {a} "{r.value}")'
         if op in (ast.Is, ast.IsNot):
             raise self.err(node, '`is` test (default-argument handling must be listed in the signature)')
         if op not in self.CMP:
@@ -429,8 +440,11 @@ class Tr:
         recv = None
         if d is None or d not in self.fam.prims:
             # method call on a value: `.m` primitives take the receiver first
+            chain = d.split('.', 1) if d else None
             if isinstance(node.func, ast.Attribute) and ('.' + node.func.attr + '()') in self.fam.prims:
                 d, recv = '.' + node.func.attr + '()', node.func.value
+            elif chain and len(chain) == 2 and chain[0] in env and ('.' + chain[1] + '()') in self.fam.prims:
+                d, recv = '.' + chain[1] + '()', ast.copy_location(ast.Name(id=chain[0], ctx=ast.Load()), node)
             else:
                 raise self.err(node, f'call of {d or "<expr>"} is not in the primitive table of family {self.fam.name}')
         p = self.fam.prims[d]
@@ -458,6 +472,8 @@ class Tr:
             a, sa = self._E(slots[0], env)
             if sa == 'vec':
                 return f'(List.map P.{p.field} {a})', 'vec'
+            if sa == 'fld':
+                return f'(fun p => P.{p.field} ({a} p))', 'fld'
         parts = [self.E(a, env, s)[0] for a, s in zip(slots, p.args)]
         if p.field.startswith('='):                      # a fixed Lean function of the prelude rather than a field
             return '(' + ' '.join([p.field[1:]] + parts) + ')', p.ret
@@ -804,6 +820,15 @@ LAPL = Family(
         'convolve': Prim('convolve', ['arr', 'mat', 'str'], 'arr', kw={'mode': 2}),
     }, extra_params=EMBED)
 
+SOFT = Family(
+    'soft threshold', ['K', 'X'], '[Add K] [Sub K] [Mul K] [Neg K] [LT K] [DecidableLT K] [DecidableEq K]', 'SoftPrims',
+    {
+        'np.abs': Prim('abs', ['K'], 'K', elementwise=True),
+        'int': Prim('trunc', ['K'], 'int'),
+        '.dtype.kind in': Prim('dtype_kind_in', ['fld', 'str'], 'bool', doc='`f.dtype.kind in "iu"`'),
+        '.dtype.type()': Prim('dtype_cast', ['fld', 'K'], 'K', doc='`f.dtype.type(v)`: the scalar `v` converted to the dtype of `f`'),
+    }, extra_params=EMBED)
+
 HISTO = Family(
     'histogram thresholds', ['H', 'G'], '', 'HistPrims',
     {
@@ -843,8 +868,9 @@ TARGETS = [
     Target('convolve.py', 'laplacian_2D', [('array', 'arr'), ('alpha', 'K')], 'arr', LAPL),
     # fuels: both `while` loops run at most N = hist.size times (maxt walks down from N-1, t walks up to at most maxt)
     Target('thresholding.py', 'rc', [('img', 'pimg'), ('ignore_zeros', 'bool')], 'K', RC, fuels=['N', 'N']),
+    Target('thresholding.py', 'soft_threshold', [('f', 'fld'), ('tval', 'K')], 'fld', SOFT),
 ]
-FAMILIES = [MORPH, CONV, THRESH, HISTO, LAPL, RC]
+FAMILIES = [MORPH, CONV, THRESH, HISTO, LAPL, RC, SOFT]
 
 
 def _find_function(tree, name):
